@@ -14,6 +14,8 @@ import (
 )
 
 func init() {
-	ggql.VerifLock = sym.HookLock
-	ggql.VerifUnlock = sym.HookUnlock
+	ggql.VerifLock = func(m ggql.VerifLocker) { sym.HookLock(m) }
+	ggql.VerifUnlock = func(m ggql.VerifLocker) { sym.HookUnlock(m) }
+	ggql.VerifRLock = sym.HookRLock
+	ggql.VerifRUnlock = sym.HookRUnlock
 }
